@@ -4229,6 +4229,9 @@ fn get_arg_type(s: &str, quoted: bool) -> ArgType {
         } else {
             ArgType::Integer
         }
+    } else if quoted {
+        //a quoted argument is a string, also if it spells a keyword or a datetime
+        ArgType::String
     } else {
         match s {
             "null" => ArgType::Null,
